@@ -47,10 +47,12 @@ def reduce_to_contemporaneous(ts):
     """
     samples = ts.samples()
     contmpr_samples = samples[ts.nodes_time[samples] == 0]
-    if len(ts.tables.edges.metadata) > 0:
-        # tskit cannot simplify edges that carry metadata; it is irrelevant here
+    if len(ts.tables.edges.metadata) > 0 or ts.num_migrations > 0:
+        # tskit cannot simplify edges that carry metadata, or tables with migration
+        # records; both are irrelevant here
         tables = ts.dump_tables()
         tables.edges.drop_metadata()
+        tables.migrations.clear()
         ts = tables.tree_sequence()
     return ts.simplify(
         contmpr_samples,
